@@ -55,6 +55,9 @@ def gen(spec, lv):
         return c05.gen(spec[1], lv)
     if fam == "c06":
         return c06.gen(spec[1], lv)
+    if fam == "c15":
+        from . import c15
+        return c15.gen(spec[1], lv)
     modes = []
     sub = c11.Sub(lv, modes)
     lines = [l % sub if "%(" in l else l for l in OWN[spec[1]]]
